@@ -31,4 +31,10 @@ CLAIMS.update({
  "C43": xfer("fault_enumeration", "forward routes of depth 1-2 over a 3-chain triangle (incl. back over the arrival channel), each hop ending in success / error ack / timeout with 0-2 retries: ledger model + conservation identity after every block; at quiescence every route is either delivered or refunded exactly once and no intermediate account holds funds"),
  "C49": xfer("exploration", "every committed packet must debit an account that signed the transaction (hostile sends naming another account as sender on v1/v2/alias); relays by arbitrary accounts may only credit the named receiver / refund the sender: enforced by comparing all tracked balances with the ledger model after every transaction"),
 })
+CLAIMS.update({
+ "C09": {"level": "fault_enumeration", "technique": "runtime monitoring: injected application faults at every point of the v1 receive path, oracle on exact per-block state diff", "note": PKT_NOTE,
+         "text": "complete matrix {mock app success / error / write-k-keys(+bank send)-then-error / write-then-async} x {ORDERED, UNORDERED} and the real transfer stack with each receive-side failure (undecodable or blocked receiver, receive disabled, bank send restriction failing after the voucher mint): after an error ack nothing but receipt/counter + the error acknowledgement may differ; success/async state must persist"},
+ "C10": {"level": "fault_enumeration", "technique": "runtime monitoring: complete status-vector matrix for v2 multi-payload receives, oracle on tx result, stored ack commitment and state diff", "note": PKT_NOTE,
+         "text": "every vector over {success, fail, write-then-fail, async, success-carrying-the-sentinel}^N for N=1..3 (N=4 sampled), on a v2 client pair and over a channel alias: all-success => per-payload acks in payload order and all app state; any failure => single sentinel ack and no app state; async only for N=1; sentinel never inside a success ack"},
+})
 NOT_APPLICABLE = {}
